@@ -104,17 +104,17 @@ class Tape:
     """stands in for Crypto.Random.get_random_bytes inside SecretSharing: serves the given chunks, logs every request"""
 
     def __init__(self, chunks):
-        self.chunks = list(chunks)
+        self.stream = b"".join(chunks)            # a byte stream: the request sizes are the implementation's business
+        self.pos = 0
         self.requests = []
 
     def __call__(self, n):
         self.requests.append(n)
-        if not self.chunks:
-            raise RuntimeError("tape exhausted")
-        c = self.chunks.pop(0)
-        if len(c) != n:
-            raise RuntimeError("tape chunk of %d bytes, %d requested" % (len(c), n))
-        return c
+        out = self.stream[self.pos:self.pos + n]
+        self.pos += n
+        if len(out) < n:                          # beyond the tape: seeded filler (the judge sees that more was drawn than the tape holds)
+            out += bytes((37 * (self.pos + i) + 11) % 256 for i in range(n - len(out)))
+        return out
 
 
 def split_with_tape(k, n, secret, ssss, chunks):
@@ -147,7 +147,7 @@ def shamir_trace(tid, k, n, ssss, secret, chunks, r, orders, lag_every, ndup):
     shares, exc, tape = split_with_tape(k, n, secret, ssss, chunks)
     ok_shape = exc == "none" and all(isinstance(s, tuple) and len(s) == 2 and isinstance(s[0], int) and len(s[1]) == 16 for s in shares)
     sp = dict(op="split", k=k, n=n, ssss=bool(ssss), secret=list(secret), tape=[list(c) for c in chunks],
-              draws=list(tape.requests), unused=len(tape.chunks), shares=[[s[0], list(s[1])] for s in shares] if ok_shape else [],
+              draws=list(tape.requests), drawn=sum(tape.requests), shares=[[s[0], list(s[1])] for s in shares] if ok_shape else [],
               exc=exc if (exc != "none" or ok_shape) else "malformed")
     events = [sp]
     if ok_shape and len(shares) == n:
